@@ -143,6 +143,29 @@ def run(ctx):
     else:
         os.environ['TZ'] = saved_tz
     _time.tzset()
+    # a reference time with a fraction of a second (xarray writes 'milliseconds since ...00.500000'): the EMS form has whole
+    # seconds only, so such units are refused - or, if ever rewritten, still denote the same instant
+    for k_ in range(6 if quick else 40):
+        f = (rng.randint(1950, 2050), rng.randint(1, 12), rng.randint(1, 28), rng.randint(0, 23), rng.randint(0, 59), rng.randint(0, 59))
+        micro = rng.choice([500000, 250000, 1, 999999, 120000])
+        period = rng.choice(['seconds', 'milliseconds', 'hours'])
+        units = f'{period} since {f[0]:04d}-{f[1]:02d}-{f[2]:02d} {f[3]:02d}:{f[4]:02d}:{f[5]:02d}.{micro:06d}'
+        case = {'units': units, 'spelling': 'fraction of a second in the reference time'}
+        ctx.case(units, True)
+        ctx.count('spelling:fraction of a second')
+        with warnings.catch_warnings():
+            warnings.simplefilter('ignore')
+            r = attempt(utils.format_time_units_for_ems, units)
+        if r[0] != 'ok':
+            continue
+        try:
+            back = cftime.num2pydate(0, r[1], 'proleptic_gregorian')
+        except Exception as e:      # noqa: BLE001
+            back = f'unreadable: {e}'
+        want = datetime.datetime(*f, micro)
+        if back != want:
+            ctx.report('property', f'{r[1]!r} denotes {back}, the original {units!r} denotes {want}: every time instant of a file saved '
+                       f'with these units moves', case, impl=r[1])
 
     # ---------------- (B) save / reopen
     n_ds = 24 if quick else 150
